@@ -38,17 +38,17 @@ CHECKS = {
  "C07": ("E1 statespace", "model_checking",
          "explicit-state BFS to fixpoint over the real EncrypterHalf/DecrypterHalf objects, lockstep reference recurrence",
          "Per key and direction the complete reachable state graph (10,240 states x 257 actions) of the real Vanilla halves is closed to fixpoint and every transition is compared with the reference recurrence; the closed-loop (encrypter, decrypter) graph is closed too, so round-tripping holds for streams of unbounded length for the explored keys; chunking equivalence is checked from every reachable state; the visited set is keyed on the reference state with an identity-or-behaviour check at every merge; a long-stream walk (2^24 bytes quick, 2^32+2^20 thorough) catches hidden counters. Rotating keys put every byte value at every key position, so the step function is executed on its whole domain (thorough).",
-         "Session keys outside the key alphabet are not explored; assumes the step at position i reads only key[i] (checked on the explored keys).",
+         "Session keys outside the key alphabet are not explored; assumes the step at position i reads only key[i] (checked on the explored keys). Also explored: every header entry point (typed, reader whole / one byte per call / failing once, writers) against the recurrence over the documented layout, halves re-joined after uneven use, a second connection on the same thread with a look-alike session key.",
          "DESIGN.md section 3, C07"),
  "C08": ("E1 statespace", "model_checking",
          "explicit-state BFS to fixpoint over the real TBC halves, lockstep reference (own HMAC-SHA1 + recurrence)",
          "Same three searches as C07 with the 20-byte HMAC-derived key (5,120 states per key and direction); ciphertext equality with a reference that derives the key with its own HMAC-SHA1 pins both separately coded derivations; the session-key alphabet is grown until the derived keys cover every (position, byte) pair (thorough).",
-         "Session keys outside the alphabet are not explored (the HMAC is covered by byte-exact comparison on the explored keys only).",
+         "Session keys outside the alphabet are not explored (the HMAC is covered by byte-exact comparison on the explored keys only). Header entry points and look-alike session keys as in C07.",
          "DESIGN.md section 3, C08"),
  "C09": ("E1 statespace (path)", "model_checking",
          "depth-bounded walk of the keystream path of all four real halves against a reference RC4-drop1024/HMAC; complete call-composition trees at the counter wrap offsets",
          "For each key the four real halves are stepped along the stream (past the 256- and 65,536-byte wraps) with varying call sizes and compared byte for byte with an independent RC4 keyed by HMAC-SHA1(direction constant, K) after dropping 1024 bytes; both pairings round-trip at every offset; every composition of a 10-byte window into calls is executed at the wrap offsets with object equality.",
-         "Depth-bounded (2^21 bytes quick; thorough 2^26 for 8 keys and 2^32+2^20 per direction for one connection): RC4's state space cannot be closed; key alphabet finite.",
+         "Also a walk of 1,600 (thorough 20,000) server and client headers through every Wrath entry point with clones between the two decoding steps, and look-alike session keys on one thread. Depth-bounded (2^21 bytes quick; thorough 2^26 for 8 keys and 2^32+2^20 per direction for one connection): RC4's state space cannot be closed; key alphabet finite.",
          "DESIGN.md section 3, C09"),
  "C10": ("E3 sweep + E1", "model_checking",
          "exhaustive enumeration of all 2^23 sizes and all 2^16 opcodes (each against an alphabet of the other) through both emitters and both decoders; BFS over mixed header sequences with exact dedup",
@@ -88,7 +88,7 @@ CHECKS = {
  "C17": ("E3 sweep", "model_checking",
          "exhaustive enumeration of every distribution of byte strings of length <= 12 (20 thorough) over the five file arguments, block-edge cut points, single-byte sensitivity",
          "Every one of the C(n+4,4) splits per length is evaluated through the Windows, Mac and single-buffer functions and the reference SHA1(key|HMAC-SHA1(salt, concat)); every single-byte change of files, salt and key must change the result; argument order matters; reconnect variant compared with the reference.",
-         "Content space represented by three patterns per length.",
+         "Content space represented by three patterns per length, plus marked contents (byte order marks, magic numbers, line endings, padding as prefix / suffix of each file), multi-megabyte inputs and 160 in-place changes of the same buffers on one thread.",
          "DESIGN.md section 3, C17"),
  "C18": ("E3 sweep", "model_checking",
          "exhaustive enumeration of all 1,457 card shapes of at most 255 cells x 5 digit counts: every coordinate, every round 0..=255, proofs from the printed digits",
